@@ -30,7 +30,11 @@ def jGeneRef (j : Json) : Except String GeneRef := do
   match j.getObjVal? "chrom" with
   | .ok c =>
     match j.getObjVal? "kept" with
-    | .ok rs => pure (loadRegion (← jSeq c) (← jInt (← arg j "start"), ← jInt (← arg j "end")) (← jList jReadSpan rs)).1
+    | .ok rs =>
+      let flank ← match j.getObjVal? "flank" with
+        | .ok f => jInt f
+        | .error _ => pure 0
+      pure (loadRegion (← jSeq c) (← jInt (← arg j "start"), ← jInt (← arg j "end")) (← jList jReadSpan rs) flank).1
     | .error _ => pure (setReferenceSequence (← jSeq c) (← jInt (← arg j "start")) (← jInt (← arg j "end"))).1
   | .error _ => pure { refRegion := ← jSeq (← arg j "seq"), start := ← jInt (← arg j "start") }
 
@@ -92,6 +96,19 @@ def readFields (check : Bool) (g : GeneRef) : List (List Iv × Strand) → Canon
     let rs := readFields check g qs r.2
     (ofOpt ofStr r.1 :: rs.1, rs.2)
 
+/-- the three reference-derived columns of the rows a `SqantiTSVPrinter` writes for the models of one gene region (one
+    `gene_info`, one memo): `all_canonical`, `seq_A_downstream_TTS`, numerator of `perc_A_downstream_TTS` -/
+def sqantiRows (g : GeneRef) (n : Int) : List (List Iv × Strand) → CanonMemo → List Json × CanonMemo
+  | [], σ => ([], σ)
+  | q :: qs, σ =>
+    let r := sqantiAllCanonical g q.1 q.2 σ
+    let coords : Iv := match q.1.head?, q.1.getLast? with
+      | some f, some l => (f.1, l.2)
+      | _, _ => (0, 0)
+    let d := sqantiDownstream g coords q.2 n
+    let rs := sqantiRows g n qs r.2
+    (Json.arr #[ofOpt ofStr r.1, ofOpt (fun x => ofChars x.1) d, ofOpt (fun x => ofNat x.2) d] :: rs.1, rs.2)
+
 def jPModel (j : Json) : Except String (PModel × Option RefAttrs) := do
   pure ({ geneId := ← jStr (← arg j "gene_id"), transcriptId := ← jStr (← arg j "transcript_id"),
           exons := ← jIvList (← arg j "exons"), strand := ← jStrand (← arg j "strand"),
@@ -127,6 +144,10 @@ def ops : List (String × Handler) := [
       let g ← jGeneRef j
       let r := addCanonicalInfo g (← jList jTModel (← arg j "models")) []
       pure (Json.mkObj [("out", ofList (fun m => ofOpt ofStr m.canonicalAttr) r.1), ("memo", ofCanonMemo r.2)])),
+  ("sqanti_rows", fun j => do
+      let g ← jGeneRef j
+      let r := sqantiRows g (← jInt (← arg j "n")) (← jList jQuery (← arg j "rows")) []
+      pure (Json.mkObj [("out", Json.arr r.1.toArray), ("memo", ofCanonMemo r.2)])),
   ("read_fields", fun j => do
       let g ← jGeneRef j
       let r := readFields (← jBool (← arg j "check")) g (← jList jQuery (← arg j "reads")) []
